@@ -8,7 +8,10 @@ use std::collections::{HashMap, VecDeque};
 use std::sync::{atomic::AtomicUsize, Arc};
 use std::time::Instant;
 use tokio::io::{split, AsyncReadExt, BufReader, ReadHalf, WriteHalf};
+#[cfg(not(pgcat_verif))]
 use tokio::net::TcpStream;
+#[cfg(pgcat_verif)]
+use crate::verif::net::TcpStream;
 use tokio::sync::broadcast::Receiver;
 use tokio::sync::mpsc::Sender;
 
